@@ -719,16 +719,17 @@ func runC05Isolation(env *Env, rc *RunCtx, sys *Sys) {
 		var writerConn atomic.Int64
 		writerConn.Store(-1)
 		theHub.mu.Lock()
-		theHub.hook = func(rec *StmtRec) {
+		theHub.hook = func(_ context.Context, rec *StmtRec) error {
 			// only the writer's transaction is parked: its BEGIN and everything on that connection
 			if rec.Kind == StmtBegin && writerConn.Load() == -1 {
 				writerConn.Store(int64(rec.Conn))
 			}
 			if int64(rec.Conn) != writerConn.Load() {
-				return
+				return nil
 			}
 			parked <- parkMsg{*rec}
 			<-resume
+			return nil
 		}
 		theHub.mu.Unlock()
 		call := seq.Add(1)
